@@ -845,6 +845,14 @@ func (ls *LanceroSource) distributeData(buffersMsg BuffersChanType) *dataBlock {
 	// Here we will look for edge trigger, eg the bit is 1 but was 0 on the previous row
 	// Then we record the "rowcounts", where rowcount = nrow*framecount+row
 	// external trigger search must occur before Mix, since mix alters FB in place
+	var droppedFrames int
+	if dataDropDetected {
+		droppedDuration := lastSampleTime.Sub(ls.previousLastSampleTime)
+		droppedFrames = roundint(droppedDuration.Seconds() * ls.sampleRate)
+		ProblemLogger.Printf("Dropped %d lancero frames over Δt=%v", droppedFrames, droppedDuration)
+	}
+	firstFrameNum := ls.nextFrameNum + FrameIndex(droppedFrames) // frame number of the first frame in this block
+
 	externalTriggerRowcounts := make([]int64, 0)
 	nrows := ls.active[0].nrows
 	ncols := ls.active[0].ncols
@@ -861,19 +869,12 @@ func (ls *LanceroSource) distributeData(buffersMsg BuffersChanType) *dataBlock {
 					// Todo: if this panic ever happens, we'd need to add code to track subframe timing PER DEVICE, rather
 					// than at the level of the overall LanceroSource. That would suck, so don't solve it unless needed.
 				}
-				externalTriggerRowcounts = append(externalTriggerRowcounts, (int64(frame)+int64(ls.nextFrameNum))*int64(nrows)+int64(row))
+				externalTriggerRowcounts = append(externalTriggerRowcounts, (int64(frame)+int64(firstFrameNum))*int64(nrows)+int64(row))
 			}
 			ls.externalTriggerLastState = externalTriggerState
 		}
 	}
 	block.externalTriggerRowcounts = externalTriggerRowcounts
-
-	var droppedFrames int
-	if dataDropDetected {
-		droppedDuration := lastSampleTime.Sub(ls.previousLastSampleTime)
-		droppedFrames = roundint(droppedDuration.Seconds() * ls.sampleRate)
-		ProblemLogger.Printf("Dropped %d lancero frames over Δt=%v", droppedFrames, droppedDuration)
-	}
 
 	for channelIndex := 0; channelIndex < nchan; channelIndex++ {
 		data := datacopies[ls.chan2readoutOrder[channelIndex]]
@@ -888,7 +889,7 @@ func (ls *LanceroSource) distributeData(buffersMsg BuffersChanType) *dataBlock {
 			rawData:         data,
 			framesPerSample: 1, // This will be changed later if decimating
 			framePeriod:     ls.samplePeriod,
-			firstFrameIndex: ls.nextFrameNum + FrameIndex(droppedFrames),
+			firstFrameIndex: firstFrameNum,
 			firstTime:       firstTime,
 			signed:          !isFeedbackChannel,
 			droppedFrames:   droppedFrames,
@@ -896,7 +897,7 @@ func (ls *LanceroSource) distributeData(buffersMsg BuffersChanType) *dataBlock {
 		block.segments[channelIndex] = seg
 		block.nSamp = len(data)
 	}
-	ls.nextFrameNum += FrameIndex(framesUsed)
+	ls.nextFrameNum = firstFrameNum + FrameIndex(framesUsed)
 	ls.previousLastSampleTime = lastSampleTime
 	if ls.heartbeats != nil {
 		mb := float64(totalBytes) / 1e6
